@@ -266,6 +266,31 @@ func genC08(c *RunCtx) []*Batch {
 			conf *eval.Config
 		}
 		var memos []memo
+		// an operator with a name of this history only, registered in both configs, declared stateless in the first only:
+		// what the second config compiles must not depend on the first having compiled the same call before
+		{
+			hop := fmt.Sprintf("h%d_op", h)
+			for _, cf := range confs {
+				cf.OperatorMap[hop] = func(_ *eval.Ctx, ps []eval.Value) (eval.Value, error) { return int64(len(ps)), nil }
+			}
+			confs[0].StatelessOperators = append(confs[0].StatelessOperators, hop)
+			src := "(+ (" + hop + " 1 2) i0)"
+			dumpOf := func(cf *eval.Config) string {
+				e, err, pan := compileSafe(cf, src)
+				if err != nil || pan != nil || e == nil {
+					return fmt.Sprintf("error: %v %v", err, pan)
+				}
+				return eval.Dump(e)
+			}
+			first := dumpOf(confs[1])
+			declared := dumpOf(confs[0])
+			again := dumpOf(confs[1])
+			ops += 3
+			if again != first {
+				c.Direct = append(c.Direct, DirectViolation{What: "what a config compiles depends on what ANOTHER config compiled before (an operator declared stateless elsewhere is folded here)", Sig: "c08-cross-config",
+					Sample: map[string]interface{}{"source": src, "undeclared_config_first": first, "declaring_config": declared, "undeclared_config_again": again}})
+			}
+		}
 		nop := 5 + r.Intn(36)
 		for o := 0; o < nop; o++ {
 			ops++
@@ -276,6 +301,11 @@ func genC08(c *RunCtx) []*Batch {
 				gc := randGenCfg(r)
 				gc.Wide, gc.FailVars = 0, false
 				t := randTree(r, gc)
+				if r.Bool() {
+					// constant-rich: what is folded at compile time depends on THIS config's stateless declarations only,
+					// whatever other configurations in the process declare
+					t = constRichTree(r)
+				}
 				src := directiveFor(r.Intn(16), r) + t.Src()
 				before := snapConf(cc)
 				e, err, pan := compileSafe(cc, src)
